@@ -57,7 +57,7 @@ def shape(rng):
     return sorted(rng.sample(range(0, 256), rng.randint(1, 30)))
 
 
-def gen(seed: int, i: int, tier: str) -> dict:
+def _gen(seed: int, i: int, tier: str) -> dict:
     rng = random.Random(f"C11:{seed}:{i}")
     proto = rng.choice(G.PROTOS)
     if tier == "thorough" and i < 256 * 5:
@@ -85,6 +85,11 @@ def gen(seed: int, i: int, tier: str) -> dict:
     lat = [rng.choice([0, 1, 3]) for _ in range(rng.randint(0, 10))]
     pin = proto if rng.random() < 0.7 else None
     return {"cfg": {"pin": pin}, "proto": proto, "ops": ops, "tapes": {"w.lat": lat}, "ids": ids}
+
+
+def gen(seed: int, i: int, tier: str) -> dict:
+    scn = _gen(seed, i, tier)
+    return G.maybe_tcp(random.Random(f"C11link:{seed}:{i}"), scn)
 
 
 def run(scn):
